@@ -106,7 +106,7 @@ def gen(rng):
     else:
         tdir, top, _u = rng.choice(locs)
     nm = rng.choice(['foreign', 'with space', 'per%cent', 'pl+us', 'ü', 'semi;colon'])
-    base = (home + '/w') if top is None else (top + '/docs')
+    base = (home + '/w') if top is None else (L['work'][top])
     loc = base + '/' + nm
     content, feats = gen_content(rng, loc, top)
     G.add_trashed(steps, tdir, 'fe', None, None, rng.choice(['file', 'dir']), info_content=content, tag='f')
